@@ -296,3 +296,12 @@ Definition if_cond_calls_ok (pfnames : list str) (lib : list tpl) (cond : enc) (
   forallb (flat_item pfnames lib) cond && forallb (forallb (flat_item pfnames lib)) more.
 Definition if_cond_calls_result (lib : list tpl) (cond : enc) (more : list enc) : enc :=
   if_calls_result lib (page_result lib cond) more.
+
+(* #ifeq with calls in both operands as well (full expansion): the operands are expanded first, their results - every call
+   replaced - are compared *)
+Definition ifeq_full_ok (pfnames : list str) (lib : list tpl) (x : enc) (more : list enc) : bool :=
+  forallb (flat_item pfnames lib) x && forallb (forallb (flat_item pfnames lib)) more.
+Definition ifeq_full_result (lib : list tpl) (x : enc) (more : list enc) : enc :=
+  add_newline (strip_i (page_result lib
+    (if mw_equal (codes (strip_i (page_result lib x))) (codes (strip_i (page_result lib (nth 0 more []))))
+     then nth 1 more [] else nth 2 more []))).
